@@ -165,3 +165,57 @@ def loss_of(lines):
             ov[(p[1] == '1', int(p[2]))] = int(p[3])
     addl = any(l.strip() == 'addl 1' for l in lines)
     return lambda lid, th, tr, idx: ov.get((tr, idx), loss_formula(lid, th, tr, idx)) + (addl_formula(th, tr, idx) if addl else 0)
+
+
+def manual_campaign(tier, seed):
+    """histories that mix epochs run by hand (run_train_epoch / run_valid_epoch) with fit() calls: the real solver vs the model, exact comparison
+    (ties Proofs/AnyHistory.lean to the code), plus the C05 / C15 invariants evaluated on every dump of the real run"""
+    rng = random.Random(seed * 7 + 3)
+    scripts = []
+    for _ in range(12 if tier == 'quick' else 150):
+        lines, kw = gen_script(rng, tier)
+        kw = dict(kw, late_valid0=False)
+        head = [l for l in lines if not l.startswith('fit')]
+        fits = [l for l in lines if l.startswith('fit')]
+        body = []
+        for f in fits:
+            for _ in range(rng.randint(0, 3)):
+                body.append(rng.choice(['train', 'valid', 'train']))
+            body.append(f)
+        for _ in range(rng.randint(0, 3)):
+            body.append(rng.choice(['train', 'valid']))
+        scripts.append((head + body, kw))
+    blocks, results, mism, bad = [], [], [], []
+    n_manual = 0
+    for lines, kw in scripts:
+        n_manual += sum(l in ('train', 'valid') for l in lines)
+        try:
+            out, run = run_script(lines, **kw)
+        except Exception as e:
+            out = e
+        results.append(out)
+        blocks.append('\n'.join(lines) + '\n---')
+    mlines, dt = run_driver('Solver', '\n'.join(blocks) + '\n')
+    mblocks = split_blocks(mlines)
+    if len(mblocks) != len(results):
+        mism.append(dict(error='driver block count', got=len(mblocks), want=len(results)))
+    for (lines, kw), out, mb in zip(scripts, results, mblocks):
+        if isinstance(out, Exception):
+            mism.append(dict(script=lines, kw=kw, real_error=f'{type(out).__name__}: {out}'))
+            continue
+        if out != mb:
+            first = next((i for i, (a, b) in enumerate(zip(out, mb)) if a != b), min(len(out), len(mb)))
+            mism.append(dict(script=lines, kw=kw, first_difference=first, real=out[first:first + 1], model=mb[first:first + 1]))
+        for l in out:
+            if l[:2] in ('E ', 'F ', 'M '):
+                d = parse_dump(l.split(' ', 2)[2] if l.startswith('M ') else (l[2:].split(' ', 1)[1] if l.startswith('F ') else l[2:]))
+                tracked = d['valid'] if d['nV'] > 0 else d['train']
+                if (d['lowest'] is None) != (not tracked) or (tracked and d['lowest'] != min(tracked)):
+                    bad.append(dict(script=lines, kw=kw, violated='after a history with hand-run epochs, lowest_loss is not the minimum of the tracked series',
+                                    lowest=d['lowest'], tracked=tracked[-8:], dump=l[:60]))
+                    break
+                if any(len(m) != len(d['train']) for m in d['tm']) or any(len(m) != len(d['valid']) for m in d['vm']):
+                    bad.append(dict(script=lines, kw=kw, violated='after a history with hand-run epochs, a metric series does not have one entry per epoch of its phase',
+                                    train=len(d['train']), valid=len(d['valid']), tm=[len(m) for m in d['tm']], vm=[len(m) for m in d['vm']]))
+                    break
+    return dict(mismatches=mism, bad=bad, scripts=len(scripts), manual_epochs=n_manual, driver_seconds=round(dt, 1))
